@@ -1,5 +1,8 @@
 #!/usr/bin/env python3
-"""Statement-level translation of small imperative Python functions into Lean 4 (`Gen/PyFuncs.lean`).
+"""Statement-level translation of small imperative Python functions into Lean 4 (`Gen/PyFuncs.lean`, `Gen/PyIupac.lean`).
+
+    python3 translator/pyfunc.py <repo>        > lean/DsdVerif/Gen/PyFuncs.lean      (dsdobjects/complex_utils.py, `gen_pyfuncs`)
+    python3 translator/pyfunc.py <repo> iupac  > lean/DsdVerif/Gen/PyIupac.lean      (dsdobjects/iupac_utils.py, `gen_pyiupac`)
 
 The loop algorithms of dsdobjects/complex_utils.py are transcribed STATEMENT BY STATEMENT from the source text of the
 working tree.  Nothing about what the functions are supposed to compute is known here; if a statement does not have one of
@@ -78,6 +81,62 @@ Rules added for `split_complex_pt` / `rotate_complex_pt` (each as narrow as thes
   l[:-1]      `List.dropLast l` (all but the last element; `[]` for `[]`)
   None-able int   a value typed `Option Nat` (`turns`): `x == n` / `x != n` against an int compares `x` with `some n`
               (`None == 3` is False); `x > n`, `x - n` need the int: `(← Py.unwrap x)`, TypeError for `None` as in Python 3
+
+Rules added for the rest of complex_utils.py (`make_strand_table`, `strand_table_to_sequence`, `split_complex_db`,
+`rotate_complex_db`) and for the sequence-level functions of iupac_utils.py (`gen_pyiupac`, Gen/PyIupac.lean):
+
+  str         three readings of a Python `str`, chosen by the typing stub: `Char` (a one-character str), `String` (an opaque
+              name: only compared, stored, measured with `len`) and `Text` (`List Char` in Lean: the list of its characters;
+              iterating it, `list(s)`, `reversed(s)`, `zip` give its one-character strs, `len(s)` its length).  Where a `Text`
+              is needed a `Char` c is `[c]` and a `String` s is `s.toList`; nothing else is coerced.
+  typed instances   a function whose behaviour depends on the TYPE of an argument is translated once per typing
+              (`inst='make_strand_table_list'` …: own Lean names `py_<inst>`, `<inst>.Vars`).  An instance may FIX a Boolean
+              parameter to a literal (`fixed={'join': False}`): the parameter disappears from the Lean signature, a read of
+              it is the literal, and a call of the instance must pass that very value statically (a literal, the caller's
+              own parameter fixed to the same value, or the equal constant default) - otherwise `Shape`.
+  if <static>  `if isinstance(x, list):` and `if p:` / `if not p:` for a fixed parameter `p` are decided by the typing of the
+              instance: only the branch that runs is translated, the other one is mentioned in a comment and not translated
+              (it need not be typable).  `isinstance(x, list)` is False for `Text` / `String` / `Char`, True for a `List …`
+              only if the stub lists `x` in `pylists` (older stubs use `List Char` for a str too); anything else is `Shape`.
+  defaults    a call may omit a parameter of a translated callee: the value is the default written in the callee's `def`,
+              if that is a constant (str / int / bool / None, typed by the parameter), or `set('<one character>')` for a
+              parameter typed as a set of characters which the callee never rebinds (it is never mutated: parameters are
+              not).  Defaults are evaluated once at definition time; for these immutable uses that is the same value.
+  fuel        a function that calls a fuel-bounded (recursive) translation takes `fuel` as its own first argument
+              (`fuel=True`) and passes it on unchanged; only calls written in the function body itself (not in a loop body).
+  for over a generator, fallible body   `for x in g(…): body` reads the translated generator as the list `list(g(…))` (rule
+              "generators").  This is exact whenever `g` does not raise after its first `yield`, or the body raises on none
+              of the values yielded before; otherwise BOTH readings end in an exception, but CPython reports the body's (it
+              runs between the yields) and the translation the generator's.  `split_complex_db` / `rotate_complex_db` are the
+              only users (Props/PyFuncs `py_rotate_complex_db_no_strand` shows the one reachable case).
+  comprehensions   `[e for T in it if c …]` and the generator expression `(e for T in it)` directly under `all(…)` or
+              `sep.join(…)` (consumed at once): one `for` clause; `T` a name or a pair of names (`let a := c.1; let b := c.2`
+              over a list of pairs); infallible conditions -> `List.filter`; element -> `List.map`, or `List.mapM` when it
+              can raise (elements in order, first exception aborts).  `it` is a list, a `Text`, `zip(a, b)` or `groupby`.
+  zip(a, b)   only as the iterable of a comprehension: `List.zip a b` (as long as the shorter argument)
+  groupby(l, key=lambda x: k)   `itertools.groupby` (import checked), only as the iterable of a comprehension with target
+              `k, g` whose group `g` is used as `list(g)` in the element only (a group dies when the next one is requested):
+              `Py.groupby (fun x => k) l : List (κ × List α)` - maximal runs of CONSECUTIVE elements whose key equals the
+              key of the first element of the run.  Keys: Bool / int / str (compared with `==`).
+  reduce(lambda a, b: e, l)   `functools.reduce` (import checked) without initial value and with an infallible `e`:
+              `(← Py.reduce (fun a b => e) l)`, TypeError for an empty list
+  all(c for …)   `List.all` of the list of the (infallible) condition values
+  s.split(sep)   `Text` `s`, `Char` `sep`: `Py.split s sep : List Text` (empty pieces kept, never the empty list)
+  sep.join(X)    `sep` a str literal or `f'{x}'`; `X` a list / generator expression of `Text`, `Char` or `String` items:
+              `Py.strJoin sep parts : Text` with the items coerced to `Text` as above
+  f'{x}'      exactly one replacement field without conversion or format spec, `x` a str: `format(x, '')`, which is `x`
+  a & b       on non-negative ints: `a &&& b`
+  len(s)      of a `Text` / `String`: its number of characters
+  module-level tables   a global name listed in the stub's `globals` is read as the Lean constant of the same name that
+              translator/gen.py regenerates from the same source file (Gen/IupacTables.lean).  Checked here: the module binds
+              the name exactly once, by a dict display with pairwise different constant keys (so that first-match look-up
+              in the item list IS `d[k]`) or a list display of constants, and every other occurrence is `name[…]` read
+              (no rebinding, `global`, mutation, aliasing).  `d[k]` -> `(← Py.dictGet d k)` (KeyError), `l[i]` -> `Py.idx`.
+  raise       the exception classes of the stub's `exc` table, which must be classes defined in the module;
+              `ConstraintError` -> `Err.fault "ConstraintError"` (`Err` has no constructor of its own for it)
+  built-ins   `isinstance list zip all len reversed set` must not be bound anywhere in the module (checked for the new stubs)
+  falling off the end   every path of a function that is not a generator must end in `return <value>` or `raise` (it would
+              return None otherwise, which no result type here can hold): `Shape`
 """
 import ast, os, sys
 
@@ -85,6 +144,7 @@ class Shape(Exception):
     pass
 
 NAT, CHAR, STR, BOOL = 'Nat', 'Char', 'String', 'Bool'
+TEXT = 'Text'                       # a Python `str` kept as the list of its characters (Lean `List Char`)
 def L(t): return ('List', t)
 def O(t): return ('Option', t)
 def P(a, b): return ('Prod', a, b)
@@ -95,6 +155,8 @@ STAB = L(L(STR))                    # strand table (domain names)
 PART = P(STAB, PTAB)
 
 def ty(t, top=True):
+    if t == TEXT:
+        return 'List Char' if top else '(List Char)'
     if isinstance(t, str):
         return t
     if t[0] == 'List':
@@ -163,14 +225,23 @@ def monadic(code):
     return '(do pure %s)' % code
 
 
+def lean_name(spec):
+    """`py_<this>` is the Lean definition: the function's name, or the name of the typed instance"""
+    return spec.get('lean', spec.get('inst', spec['name']))
+
+
 class FuncTx:
     def __init__(self, spec, fn, parent=None, specs=None):
         self.spec, self.fn = spec, fn
-        self.name = spec['name']
+        self.name = spec.get('inst', spec['name'])             # a typed instance has its own Lean names
         self.parent = parent
         self.specs = specs or {}                                # stubs of the functions translated before (callees)
         self.params = dict(spec['params'])
-        self.param_order = [p for p, _ in spec['params']]
+        self.fixed = dict(spec.get('fixed', {}))                # parameters fixed to a literal by this typed instance
+        self.globals = dict(spec.get('globals', {}))            # module-level constant tables: name -> (Lean constant, type)
+        self.exc = spec.get('exc', EXC)
+        self.ncomp = 0
+        self.param_order = [p for p, _ in spec['params'] if p not in self.fixed]
         if parent is not None:                                  # nested def: the enclosing parameters come first
             own = self.param_order
             cap = [q for q in parent.param_order if q not in own]
@@ -206,7 +277,12 @@ class FuncTx:
                         if isinstance(n, ast.Name) and isinstance(n.ctx, ast.Store) and n.id in self.params and n.id not in self.rebound:
                             self.rebound.append(n.id)
         for p in self.rebound:
+            if p in self.fixed:
+                raise Shape('%s: the fixed parameter %s is assigned' % (self.name, p))
             self.locals[p] = self.params[p]
+        for n in list(self.fixed) + list(self.globals):
+            if n in self.locals or (n in self.globals and n in self.params):
+                raise Shape('%s: %s is both a fixed parameter / module-level table and a variable' % (self.name, n))
         if self.generator is not None:
             if not any(isinstance(n, ast.Yield) for n in own_nodes(fn)):
                 raise Shape('%s: no yield in a function declared as a generator' % self.name)
@@ -223,7 +299,7 @@ class FuncTx:
 
     def recur_code(self):
         """the function for recursive calls: the parameter `recur` of a step function, the smaller instance in the body"""
-        return 'recur' if self.loop_stack else '(py_%s fuel)' % self.spec.get('lean', self.name)
+        return 'recur' if self.loop_stack else '(py_%s fuel)' % lean_name(self.spec)
 
     # ---- names -------------------------------------------------------------------------------------------------
     def var(self, n):
@@ -231,8 +307,14 @@ class FuncTx:
             return ident(n), self.loopvars[n]
         if n in self.locals:
             return 'v.' + ident(n), self.locals[n]
+        if n in self.fixed:                                     # a parameter fixed by the typed instance: its literal
+            if not isinstance(self.fixed[n], bool):
+                raise Shape('%s: fixed parameter %s: only True / False' % (self.name, n))
+            return ('true' if self.fixed[n] else 'false'), BOOL
         if n in self.params:
             return ident(n), self.params[n]
+        if n in self.globals:                                   # a module-level constant table (regenerated from the source)
+            return self.globals[n]
         raise Shape('%s: name %r has no declared type' % (self.name, n))
 
     # ---- expressions -------------------------------------------------------------------------------------------
@@ -253,6 +335,8 @@ class FuncTx:
                 return '"%s"' % v.replace('\\', '\\\\').replace('"', '\\"'), STR
             if expect == L(CHAR):
                 return '[' + ', '.join("'%s'" % c for c in v) + ']', L(CHAR)
+            if expect == TEXT:
+                return '[' + ', '.join("'%s'" % ({"'": "\\'", '\\': '\\\\'}.get(c, c)) for c in v) + ']', TEXT
             raise Shape('%s: cannot type the string literal %r (expected %s)' % (self.name, v, expect))
         raise Shape('literal ' + repr(v))
 
@@ -287,6 +371,10 @@ class FuncTx:
             return '(some %s)' % code
         if isinstance(t, tuple) and t[0] == 'Option' and t[1] == '?' and isinstance(want, tuple) and want[0] == 'Option':
             return code
+        if want == TEXT and t == CHAR:                          # a one-character str as a str
+            return '[%s]' % code
+        if want == TEXT and t == STR:                           # an opaque str as the list of its characters
+            return '(%s).toList' % code
         raise Shape('%s: a %s where a %s is needed: %s' % (self.name, ty(t), ty(want), code))
 
     def ex(self, node, expect=None):
@@ -332,7 +420,21 @@ class FuncTx:
                 if ta == NAT and tb == NAT:
                     return '(← Py.mod %s %s)' % (a, b), NAT        # ZeroDivisionError
                 raise Shape('%s: %% on %s and %s' % (self.name, ty(ta), ty(tb)))
+            if isinstance(node.op, ast.BitAnd):
+                a, ta = self.ex(node.left, NAT)
+                b, tb = self.ex(node.right, NAT)
+                if ta == NAT and tb == NAT:
+                    return '(%s &&& %s)' % (a, b), NAT              # bitwise and of non-negative ints
+                raise Shape('%s: & on %s and %s' % (self.name, ty(ta), ty(tb)))
             raise Shape('%s: operator %s' % (self.name, type(node.op).__name__))
+        if isinstance(node, ast.JoinedStr):
+            # f'{x}' with a single replacement field, no conversion, no format spec, for a str x: format(x, '') is x
+            if len(node.values) == 1 and isinstance(node.values[0], ast.FormattedValue) and node.values[0].conversion == -1 \
+                    and node.values[0].format_spec is None:
+                c, t = self.ex(node.values[0].value)
+                if t in (CHAR, STR, TEXT):
+                    return c, t
+            raise Shape('%s: f-string shape: %s' % (self.name, ast.unparse(node)[:60]))
         if isinstance(node, ast.IfExp):
             c = self.truthy(node.test)
             (a, ta), (b, tb) = self.ex(node.body, expect), self.ex(node.orelse, expect)
@@ -359,6 +461,9 @@ class FuncTx:
                 items.append('(%s, %s)' % (self.need(kc, kt, expect[1]), self.need(xc, xt, expect[2])))
             return '[' + ', '.join(items) + ']', expect
         if isinstance(node, ast.ListComp):
+            if len(node.generators) == 1 and not node.generators[0].is_async and \
+                    (node.generators[0].ifs or isinstance(node.generators[0].target, ast.Tuple) or self.lazy_iter(node.generators[0].iter)):
+                return self.comp(node, expect)                      # `if` clause, pair target, zip / groupby
             if len(node.generators) != 1 or node.generators[0].ifs or node.generators[0].is_async \
                     or not isinstance(node.generators[0].target, ast.Name):
                 raise Shape('%s: comprehension shape: %s' % (self.name, ast.unparse(node)[:60]))
@@ -473,10 +578,14 @@ class FuncTx:
                     return self.mapped(la.args[0].arg, m.args[0].body, m.args[1], expect)
                 if f.id == 'len' and len(node.args) == 1:
                     a, ta = self.ex(node.args[0])
+                    if ta in (TEXT, STR):                            # number of characters of a str
+                        return '(%s).length' % a, NAT
                     if not (isinstance(ta, tuple) and ta[0] == 'List'): raise Shape('len of ' + ty(ta))
                     return '(%s).length' % a, NAT
                 if f.id == 'list' and len(node.args) == 1:
                     a, ta = self.ex(node.args[0])
+                    if ta == TEXT:                                   # the list of the one-character strs of a str
+                        return a, L(CHAR)
                     if not (isinstance(ta, tuple) and ta[0] == 'List'): raise Shape('list() of ' + ty(ta))
                     return a, ta                                   # a copy; values are immutable here
                 if f.id == 'enumerate' and len(node.args) == 1:
@@ -490,7 +599,35 @@ class FuncTx:
                     return '(Py.range2 %s %s)' % (args[0][0], args[1][0]), L(NAT)
                 if f.id == 'reversed' and len(node.args) == 1:
                     a, ta = self.ex(node.args[0])
+                    if not (ta == TEXT or (isinstance(ta, tuple) and ta[0] == 'List')): raise Shape('reversed of ' + ty(ta))
                     return '(List.reverse %s)' % a, ta
+                if f.id == 'reduce' and len(node.args) == 2 and isinstance(node.args[0], ast.Lambda):
+                    # functools.reduce(lambda a, b: e, l) without an initial value, `e` infallible
+                    if not self.spec.get('reduce_is_functools'):
+                        raise Shape('%s: reduce is not functools.reduce' % self.name)
+                    la = node.args[0].args
+                    if len(la.args) != 2 or la.vararg or la.kwarg or la.kwonlyargs or la.defaults or la.posonlyargs:
+                        raise Shape('%s: lambda shape' % self.name)
+                    l, tl = self.ex(node.args[1])
+                    if not (isinstance(tl, tuple) and tl[0] == 'List'):
+                        raise Shape('%s: reduce over a %s' % (self.name, ty(tl)))
+                    names = [x.arg for x in la.args]
+                    if names[0] == names[1] or any(x in self.loopvars or x in self.locals or x in self.params for x in names):
+                        raise Shape('%s: the lambda parameters %s shadow other variables' % (self.name, names))
+                    saved = dict(self.loopvars)
+                    self.loopvars[names[0]] = self.loopvars[names[1]] = tl[1]
+                    b, tb = self.ex(node.args[0].body, tl[1])
+                    self.loopvars = saved
+                    if tb != tl[1] or '←' in b:
+                        raise Shape('%s: reduce with a fallible or ill-typed function: %s' % (self.name, b))
+                    return '(← Py.reduce (fun (%s : %s) (%s : %s) => %s) %s)' % (ident(names[0]), ty(tl[1]), ident(names[1]), ty(tl[1]), b, l), tl[1]
+                if f.id == 'all' and len(node.args) == 1 and isinstance(node.args[0], ast.GeneratorExp):
+                    # all(c for … in …) with an infallible c: the generator is consumed at once; stopping at the first
+                    # False is not observable
+                    c, tc = self.comp(node.args[0], L(BOOL))
+                    if tc != L(BOOL) or '←' in c:
+                        raise Shape('%s: all() of %s' % (self.name, ast.unparse(node.args[0])[:60]))
+                    return '(List.all %s (fun b => b))' % c, BOOL
                 if f.id == 'set' and len(node.args) == 0:
                     if not (expect and expect[0] == 'List'): raise Shape('cannot type set()')
                     return '[]', expect
@@ -499,11 +636,35 @@ class FuncTx:
                     a, ta = self.ex(f.value)
                     x, tx = self.ex(node.args[0], ta[1])
                     return '(← Py.index %s %s)' % (a, self.need(x, tx, ta[1])), NAT
+                if f.attr == 'split' and len(node.args) == 1:
+                    a, ta = self.ex(f.value)                         # s.split(sep): a str and a one-character separator
+                    x, tx = self.ex(node.args[0], CHAR)
+                    if ta != TEXT or tx != CHAR:
+                        raise Shape('%s: split of a %s at a %s' % (self.name, ty(ta), ty(tx)))
+                    return '(Py.split %s %s)' % (a, x), L(TEXT)
+            if isinstance(f, ast.Attribute) and f.attr == 'join' and len(node.args) == 1 and \
+                    isinstance(f.value, (ast.Constant, ast.JoinedStr)):
+                # sep.join(parts): `sep` a str literal or f'{x}', `parts` a list / generator expression of strs
+                sep, tsep = self.ex(f.value, TEXT)
+                sep = self.need(sep, tsep, TEXT)
+                arg = node.args[0]
+                parts, tp = self.comp(arg, None) if isinstance(arg, ast.GeneratorExp) else self.ex(arg)
+                if tp == L(TEXT):
+                    pass
+                elif tp == L(CHAR):                                   # one-character strs
+                    parts = '(List.map (fun c => [c]) %s)' % parts
+                elif tp == L(STR):
+                    parts = '(List.map String.toList %s)' % parts
+                else:
+                    raise Shape('%s: join of a %s' % (self.name, ty(tp)))
+                return '(Py.strJoin %s %s)' % (sep, parts), TEXT
         raise Shape('%s: unsupported expression: %s' % (self.name, ast.unparse(node)[:80]))
 
     def mapped(self, x, body, iter_, expect):
         """`list(map(lambda x: body, iter_))` / `[body for x in iter_]`"""
         it, tit = self.ex(iter_)
+        if tit == TEXT:                                             # iterating a str: its characters
+            tit = L(CHAR)
         if not (isinstance(tit, tuple) and tit[0] == 'List'):
             raise Shape('%s: map / comprehension over a %s' % (self.name, ty(tit)))
         if x in self.loopvars or x in self.locals or x in self.params:
@@ -519,6 +680,141 @@ class FuncTx:
             return '(List.map (fun (%s : %s) => %s) %s)' % (ident(x), ty(tit[1]), b, it), L(tb)
         return '(← List.mapM (fun (%s : %s) => %s) %s)' % (ident(x), ty(tit[1]), monadic(b), it), L(tb)
 
+    def lazy_iter(self, node):
+        """`zip(…)` / `groupby(…)`: lazy iterators, accepted only as the iterable of a comprehension (consumed at once)"""
+        return isinstance(node, ast.Call) and isinstance(node.func, ast.Name) and node.func.id in ('zip', 'groupby')
+
+    def comp(self, node, expect):
+        """`[e for T in it if c]` / `(e for T in it if c)` consumed at once: one `for` clause, `T` a name or a pair of names,
+        infallible conditions `c`; `it` a list, a str, `zip(a, b)` or `groupby(l, key=lambda x: k)`"""
+        if len(node.generators) != 1 or node.generators[0].is_async:
+            raise Shape('%s: comprehension shape: %s' % (self.name, ast.unparse(node)[:60]))
+        g = node.generators[0]
+        tg = g.target
+        group_var = None
+        if self.lazy_iter(g.iter) and g.iter.func.id == 'zip':
+            if len(g.iter.args) != 2 or g.iter.keywords:
+                raise Shape('%s: zip shape' % self.name)
+            (a, ta), (b, tb) = self.ex(g.iter.args[0]), self.ex(g.iter.args[1])
+            ta, tb = (L(CHAR) if ta == TEXT else ta), (L(CHAR) if tb == TEXT else tb)
+            if not all(isinstance(t, tuple) and t[0] == 'List' for t in (ta, tb)) or '←' in a + b:
+                raise Shape('%s: zip of a %s and a %s' % (self.name, ty(ta), ty(tb)))
+            it, tit = '(List.zip %s %s)' % (a, b), L(P(ta[1], tb[1]))         # as long as the shorter one
+        elif self.lazy_iter(g.iter):
+            # itertools.groupby(l, key=lambda x: k): a group `g` is only valid until the next group is requested, so the
+            # target must be `k, g` and `g` may only be used as `list(g)` in the element expression
+            if not self.spec.get('groupby_is_itertools'):
+                raise Shape('%s: groupby is not itertools.groupby' % self.name)
+            c = g.iter
+            if len(c.args) != 1 or len(c.keywords) != 1 or c.keywords[0].arg != 'key' or not isinstance(c.keywords[0].value, ast.Lambda):
+                raise Shape('%s: groupby shape: %s' % (self.name, ast.unparse(c)[:60]))
+            la = c.keywords[0].value.args
+            if len(la.args) != 1 or la.vararg or la.kwarg or la.kwonlyargs or la.defaults or la.posonlyargs:
+                raise Shape('%s: lambda shape' % self.name)
+            l, tl = self.ex(c.args[0])
+            if not (isinstance(tl, tuple) and tl[0] == 'List') or '←' in l:
+                raise Shape('%s: groupby over a %s' % (self.name, ty(tl)))
+            x = la.args[0].arg
+            if x in self.loopvars or x in self.locals or x in self.params:
+                raise Shape('%s: the bound variable %s shadows another variable' % (self.name, x))
+            saved = dict(self.loopvars)
+            self.loopvars[x] = tl[1]
+            k, tk = self.ex(c.keywords[0].value.body)
+            self.loopvars = saved
+            if '←' in k or tk not in (BOOL, NAT, CHAR, STR):
+                raise Shape('%s: groupby key: %s' % (self.name, k))
+            if not (isinstance(tg, ast.Tuple) and len(tg.elts) == 2 and all(isinstance(e, ast.Name) for e in tg.elts)):
+                raise Shape('%s: groupby target %s' % (self.name, ast.unparse(tg)))
+            group_var = tg.elts[1].id
+            uses = [n for n in ast.walk(node.elt) if isinstance(n, ast.Name) and n.id == group_var]
+            wrapped = [n.args[0] for n in ast.walk(node.elt) if isinstance(n, ast.Call) and isinstance(n.func, ast.Name)
+                       and n.func.id == 'list' and len(n.args) == 1 and not n.keywords]
+            if any(u not in wrapped for u in uses) or any(isinstance(n, ast.Name) and n.id == group_var for c2 in g.ifs for n in ast.walk(c2)):
+                raise Shape('%s: the group %s of groupby is used other than as list(%s)' % (self.name, group_var, group_var))
+            it, tit = '(Py.groupby (fun (%s : %s) => %s) %s)' % (ident(x), ty(tl[1]), k, l), L(P(tk, tl))
+        else:
+            it, tit = self.ex(g.iter)
+            if tit == TEXT:
+                tit = L(CHAR)
+            if not (isinstance(tit, tuple) and tit[0] == 'List'):
+                raise Shape('%s: comprehension over a %s' % (self.name, ty(tit)))
+        et = tit[1]
+        saved = dict(self.loopvars)
+        def fresh(n):
+            if n in self.loopvars or n in self.locals or n in self.params or n in self.globals:
+                raise Shape('%s: the bound variable %s shadows another variable' % (self.name, n))
+        if isinstance(tg, ast.Name):
+            fresh(tg.id)
+            arg, lets = ident(tg.id), ''
+            self.loopvars[tg.id] = et
+        elif isinstance(tg, ast.Tuple) and len(tg.elts) == 2 and all(isinstance(e, ast.Name) for e in tg.elts) \
+                and tg.elts[0].id != tg.elts[1].id and isinstance(et, tuple) and et[0] == 'Prod':
+            self.ncomp += 1
+            arg = 'c%d' % self.ncomp
+            fresh(arg)
+            lets = ''
+            for i, e in enumerate(tg.elts):
+                fresh(e.id)
+                self.loopvars[e.id] = et[1 + i]
+                lets += 'let %s := %s.%d; ' % (ident(e.id), arg, i + 1)
+        else:
+            raise Shape('%s: comprehension target %s over a %s' % (self.name, ast.unparse(tg), ty(tit)))
+        conds = [self.pure(self.truthy(c)) for c in g.ifs]
+        want = expect[1] if expect and expect[0] == 'List' else None
+        b, tb = self.ex(node.elt, want)
+        if want is not None:
+            b, tb = self.need(b, tb, want), want
+        self.loopvars = saved
+        for c in conds:
+            it = '(List.filter (fun (%s : %s) => %s%s) %s)' % (arg, ty(et), lets, c, it)
+        if '←' not in b:
+            return '(List.map (fun (%s : %s) => %s%s) %s)' % (arg, ty(et), lets, b, it), L(tb)
+        x = strip_arrow(b)
+        body = x if x is not None else 'pure %s' % b
+        return '(← List.mapM (fun (%s : %s) => (do %s%s)) %s)' % (arg, ty(et), lets, body, it), L(tb)
+
+    def static_test(self, node):
+        """a test that the typing of this instance decides: a parameter fixed to True / False, `isinstance(x, list)`"""
+        if isinstance(node, ast.UnaryOp) and isinstance(node.op, ast.Not):
+            r = self.static_test(node.operand)
+            return None if r is None else not r
+        if isinstance(node, ast.Name) and node.id in self.fixed and node.id not in self.loopvars:
+            return bool(self.fixed[node.id])
+        if isinstance(node, ast.Call) and isinstance(node.func, ast.Name) and node.func.id == 'isinstance':
+            if len(node.args) != 2 or node.keywords or not isinstance(node.args[0], ast.Name) \
+                    or not (isinstance(node.args[1], ast.Name) and node.args[1].id == 'list'):
+                raise Shape('%s: isinstance shape: %s' % (self.name, ast.unparse(node)))
+            x = node.args[0].id
+            _, t = self.var(x)
+            if t in (TEXT, STR, CHAR):
+                return False
+            # a `List …` type stands for a Python list only where the stub says so (older stubs use `List Char` for a str)
+            if isinstance(t, tuple) and t[0] == 'List' and x in self.spec.get('pylists', ()):
+                return True
+            raise Shape('%s: isinstance(%s, list) is not decided by the typing' % (self.name, x))
+        return None
+
+    def default_value(self, cspec, q, tq):
+        """the value of the parameter `q` that a call of `cspec` omits: the default of the `def`, if it is a constant
+        (or `set('<one character>')` for a set of characters that the callee never rebinds or mutates)"""
+        fn = cspec.get('_fn')
+        if fn is None:
+            raise Shape('%s: no definition at hand for the default of %s' % (self.name, q))
+        names = [a.arg for a in fn.args.args]
+        defaults = dict(zip(names[len(names) - len(fn.args.defaults):], fn.args.defaults))
+        if q not in defaults:
+            raise Shape('%s: %s is called without %s, which has no default' % (self.name, cspec['name'], q))
+        d = defaults[q]
+        if isinstance(d, ast.Constant):
+            c, tc = FuncTx.lit(self, d, tq)
+            return self.need(c, tc, tq), d
+        if isinstance(d, ast.Call) and isinstance(d.func, ast.Name) and d.func.id == 'set' and len(d.args) == 1 and not d.keywords \
+                and isinstance(d.args[0], ast.Constant) and isinstance(d.args[0].value, str) and len(d.args[0].value) == 1 and tq == L(CHAR):
+            if any(isinstance(n, ast.Name) and n.id == q and isinstance(n.ctx, (ast.Store, ast.Del)) for n in ast.walk(fn)):
+                raise Shape('%s: the mutable default of %s is rebound by %s' % (self.name, q, cspec['name']))
+            return FuncTx.lit(self, d.args[0], L(CHAR))[0], d
+        raise Shape('%s: default of %s in %s: %s' % (self.name, q, cspec['name'], ast.unparse(d)[:40]))
+
     def call(self, node, as_iter=False):
         """a call of a nested def, of the function itself (recursion) or of a function translated before"""
         f = node.func.id
@@ -533,10 +829,12 @@ class FuncTx:
                 raise Shape('%s: recursive call in a function that is not declared recursive' % self.name)
             cspec, params, head = self.spec, self.spec['params'], self.recur_code()
         else:
-            cspec, params, head = self.specs[f], self.specs[f]['params'], 'py_' + self.specs[f].get('lean', f)
-            if cspec.get('recursive'):
-                head += ' fuel' if False else ''
-                raise Shape('%s: call of the recursive function %s from another function' % (self.name, f))
+            cspec, params, head = self.specs[f], self.specs[f]['params'], 'py_' + lean_name(self.specs[f])
+            if cspec.get('recursive') or cspec.get('fuel'):
+                # a fuel-bounded callee: this function takes `fuel` itself and passes it on (only from its own body)
+                if not self.spec.get('fuel') or self.loop_stack or self.parent is not None:
+                    raise Shape('%s: call of the recursive function %s from another function' % (self.name, f))
+                head += ' fuel'
         if cspec.get('generator') is not None and not as_iter:
             raise Shape('%s: the generator %s(…) is not consumed by a for loop' % (self.name, f))
         names = [q for q, _ in params]
@@ -547,14 +845,30 @@ class FuncTx:
             if kw.arg is None or kw.arg not in names or kw.arg in given:
                 raise Shape('%s: keyword argument of %s' % (self.name, f))
             given[kw.arg] = kw.value
-        if set(given) != set(names):
+        if set(given) != set(names) and not (set(given) < set(names) and cspec.get('_fn') is not None):
             raise Shape('%s: %s is called without %s (defaults are not modelled)' % (self.name, f, sorted(set(names) - set(given))))
         args = []
+        cfixed = cspec.get('fixed', {})
         for q, tq in params:                       # evaluated in the order written: positional first, then keywords
+            if q in cfixed:
+                # the callee is a typed instance with `q` fixed: the call must pass that very value, statically
+                g = given[q] if q in given else self.default_value(cspec, q, tq)[1]
+                if isinstance(g, ast.Name) and g.id in self.fixed and g.id not in self.loopvars and g.id not in self.locals:
+                    val = self.fixed[g.id]
+                elif isinstance(g, ast.Constant):
+                    val = g.value
+                else:
+                    raise Shape('%s: %s of %s is fixed by the instance and must be passed as a literal' % (self.name, q, f))
+                if val is not cfixed[q]:
+                    raise Shape('%s: %s of %s is %r in the instance %s' % (self.name, q, f, cfixed[q], lean_name(cspec)))
+                continue
+            if q not in given:                     # omitted: the constant default of the definition
+                args.append(self.default_value(cspec, q, tq)[0])
+                continue
             c, tc = self.ex(given[q], tq)
             args.append(self.need(c, tc, tq))
         order = [q for q in names[:len(node.args)]] + [kw.arg for kw in node.keywords]
-        if order != names and any('←' in a for a in args):
+        if order != [q for q in names if q in given] and any('←' in a for a in args):
             raise Shape('%s: fallible keyword arguments out of order' % self.name)
         code, t = '(← %s %s)' % (head, ' '.join(args)), cspec['ret']
         if 'ret_pick' in cspec:                    # the callee's translation returns all its result shapes together
@@ -648,9 +962,9 @@ class FuncTx:
         if isinstance(st, ast.Raise):
             exc = st.exc
             nm = exc.func.id if isinstance(exc, ast.Call) and isinstance(exc.func, ast.Name) else (exc.id if isinstance(exc, ast.Name) else None)
-            if nm not in EXC:
+            if nm not in self.exc:
                 raise Shape('%s: raise of %s' % (self.name, ast.unparse(exc)[:40]))
-            out.append(ind + 'throw %s' % EXC[nm])
+            out.append(ind + 'throw %s' % self.exc[nm])
             return
         if isinstance(st, ast.Continue):
             if not inloop:
@@ -797,6 +1111,12 @@ class FuncTx:
                 out.append(ind + self.set_local(x, 'pp.2'))
                 return
             raise Shape('%s: method call %s.%s' % (self.name, x, m))
+        if isinstance(st, ast.If) and self.static_test(st.test) is not None:
+            # decided by the typing of this instance: only the branch that runs is translated
+            r = self.static_test(st.test)
+            out.append(ind + '-- if %s: %s at this typing; only the %s branch is translated' % (ast.unparse(st.test), r, 'if' if r else 'else'))
+            self.block(st.body if r else st.orelse, out, ind, inloop)
+            return
         if isinstance(st, ast.If) and isinstance(st.test, ast.BoolOp) and isinstance(st.test.op, ast.And) \
                 and any('←' in self.truthy(x) for x in st.test.values[1:]):
             # `if a and b: body` with a fallible `b`: Python evaluates `b` only when `a` is true -> nested tests
@@ -971,6 +1291,20 @@ class FuncTx:
             self.locals['yielded'] = L(self.generator)
             if self.ret_flag:
                 self.locals['returned'] = BOOL
+        def returns(blk):
+            """every path through the block ends in `return <value>` or `raise`"""
+            if not blk:
+                return False
+            last = blk[-1]
+            if isinstance(last, ast.Return):
+                return last.value is not None
+            if isinstance(last, ast.Raise):
+                return True
+            if isinstance(last, ast.If):
+                return returns(last.body) and returns(last.orelse)
+            return False
+        if self.generator is None and not returns(body):
+            raise Shape('%s: the function can fall off its end (it would return None)' % self.name)
         self.stmts(body, out, self.ind0, False)
         if self.generator is not None and not (body and isinstance(body[-1], ast.Return)):
             out.append(self.ind0 + 'return v.yielded      -- end of the generator')
@@ -993,10 +1327,23 @@ class FuncTx:
             text.append('/-- `%s` (%s), statement by statement; `list(…)` of the generator, recursion depth bounded by `fuel` -/'
                         % (self.name, self.spec['path']) if self.generator is not None else
                         '/-- `%s` (%s), statement by statement; recursion depth bounded by `fuel` -/' % (self.name, self.spec['path']))
-            text.append('def py_%s (fuel : Nat) %s : Py.M (%s) :=' % (self.spec.get('lean', self.name), sig, ty(self.spec['ret'])))
+            text.append('def py_%s (fuel : Nat) %s : Py.M (%s) :=' % (lean_name(self.spec), sig, ty(self.spec['ret'])))
             text.append('  match fuel with')
             text.append('  | 0 => throw (Err.fault "RecursionError")')
             text.append('  | fuel + 1 => do')
+        elif 'inst' in self.spec or self.spec.get('fuel'):
+            note = []
+            if 'inst' in self.spec:
+                note.append('the typed instance `%s`' % self.spec['inst'])
+            if self.fixed:
+                note.append(', '.join('%s = %r' % kv for kv in self.fixed.items()))
+            if self.generator is not None:
+                note.append('`list(…)` of the generator')
+            if self.spec.get('fuel'):
+                note.append('`fuel` bounds the recursion depth of the functions it calls')
+            text.append('/-- `%s` (%s), statement by statement; %s -/' % (self.spec['name'], self.spec['path'], '; '.join(note)))
+            text.append('def py_%s %s%s : Py.M (%s) := do' % (lean_name(self.spec), '(fuel : Nat) ' if self.spec.get('fuel') else '', sig,
+                                                            ty(self.spec['ret'])))
         else:
             text.append('/-- `%s` (%s), statement by statement -/' % (self.name, self.spec['path']))
             text.append('def py_%s %s : Py.M (%s) := do' % (self.spec.get('lean', self.name), sig, ty(self.spec['ret'])))
@@ -1054,7 +1401,7 @@ def definite_assignment(fn, params, name):
         # names bound by a lambda / a comprehension are visible in its body only
         if isinstance(node, ast.Lambda):
             return check(node.body, set(have) | {a.arg for a in node.args.args}, load_too)
-        if isinstance(node, ast.ListComp):
+        if isinstance(node, (ast.ListComp, ast.GeneratorExp)):
             inner = set(have)
             for g in node.generators:
                 check(g.iter, inner, load_too)
@@ -1071,7 +1418,7 @@ def definite_assignment(fn, params, name):
     walk(fn.body, set(params))
 
 BUILTINS = {'len', 'list', 'set', 'range', 'reversed', 'enumerate', 'IndexError', 'SecondaryStructureError', 'None', 'True', 'False',
-            'map', 'chain'}
+            'map', 'chain', 'isinstance', 'groupby', 'reduce', 'zip', 'all', 'ConstraintError'}
 
 
 def check_signature(fn, spec):
@@ -1140,22 +1487,120 @@ FUNCS = [
          callees=['wrap'],
          generator=PART, recursive=True,
          ret=L(PART)),
+    # ---- the rest of complex_utils.py ------------------------------------------------------------------------------
+    # make_strand_table on a Python list of domain names (`isinstance(seq, list)` is True): the groupby branch.
+    # `strand_break` is a name like the others (a str of any length), so the assertion on its length is a real check.
+    dict(path='dsdobjects/complex_utils.py', name='make_strand_table', inst='make_strand_table_list',
+         params=[('seq', L(STR)), ('strand_break', STR)], locals={}, pylists=['seq'],
+         ret=STAB),
+    # make_strand_table on a str (`isinstance(seq, list)` is False): the `.split` branch; a strand is the list of its
+    # one-character strs
+    dict(path='dsdobjects/complex_utils.py', name='make_strand_table', inst='make_strand_table_str',
+         params=[('seq', TEXT), ('strand_break', CHAR)], locals={},
+         assume_asserts=['len(strand_break) == 1'],
+         ret=L(L(CHAR))),
+    # strand_table_to_sequence(st, strand_break, join=False) on a table of names: the `reduce` branch, a list of names
+    dict(path='dsdobjects/complex_utils.py', name='strand_table_to_sequence', inst='strand_table_to_sequence_list',
+         params=[('st', STAB), ('strand_break', STR), ('join', BOOL)], fixed={'join': False}, locals={},
+         ret=L(STR)),
+    # strand_table_to_sequence(st, strand_break, join=True) on a table of one-character names: the `str.join` branch, a str
+    dict(path='dsdobjects/complex_utils.py', name='strand_table_to_sequence', inst='strand_table_to_sequence_str',
+         params=[('st', L(L(CHAR))), ('strand_break', CHAR), ('join', BOOL)], fixed={'join': True}, locals={},
+         ret=TEXT),
+    # `list(split_complex_db(seq, sst, join=False))` for a list of names and a structure (str or list of characters)
+    dict(path='dsdobjects/complex_utils.py', name='split_complex_db',
+         params=[('seq', L(STR)), ('sst', L(CHAR)), ('join', BOOL)], fixed={'join': False},
+         locals={'stab': STAB, 'ptab': PTAB, 'nseq': L(STR), 'nsst': L(CHAR)},
+         callees=[('make_strand_table', 'make_strand_table_list'), 'make_pair_table', 'split_complex_pt',
+                  ('strand_table_to_sequence', 'strand_table_to_sequence_list'), 'pair_table_to_dot_bracket'],
+         generator=P(L(STR), L(CHAR)), fuel=True,
+         ret=L(P(L(STR), L(CHAR)))),
+    # `list(rotate_complex_db(seq, sst, turns, join=False))`
+    dict(path='dsdobjects/complex_utils.py', name='rotate_complex_db',
+         params=[('seq', L(STR)), ('sst', L(CHAR)), ('turns', O(NAT)), ('join', BOOL)], fixed={'join': False},
+         locals={'stab': STAB, 'ptab': PTAB, 'nseq': L(STR), 'nsst': L(CHAR)},
+         callees=[('make_strand_table', 'make_strand_table_list'), 'make_pair_table', 'rotate_complex_pt',
+                  ('strand_table_to_sequence', 'strand_table_to_sequence_list'), 'pair_table_to_dot_bracket'],
+         generator=P(L(STR), L(CHAR)), fuel=True,
+         ret=L(P(L(STR), L(CHAR)))),
 ]
+
+# ---- dsdobjects/iupac_utils.py: the sequence-level functions ----------------------------------------------------------
+# the module-level tables are regenerated from the source as Lean data by translator/gen.py (Gen/IupacTables.lean); a global
+# name is read as that constant (same name), after checking that the module binds it exactly once, to a display with
+# pairwise different constant keys (so that first-match look-up in the item list is `d[k]`), and never touches it again
+IUPAC = 'dsdobjects/iupac_utils.py'
+IUPAC_TABLES = {n: (n, D(CHAR, CHAR)) for n in ('wc_complement_dna', 'wc_complement_rna', 'wobble_complement_dna', 'wobble_complement_rna')}
+IUPAC_TABLES.update({'iupac_bin': ('iupac_bin', D(CHAR, NAT)), 'bin_iupac_dna': ('bin_iupac_dna', L(STR)), 'bin_iupac_rna': ('bin_iupac_rna', L(STR))})
+IUPAC_EXC = {'ConstraintError': '(Err.fault "ConstraintError")'}      # `Err` has no constructor of its own for it
+IUPAC_FUNCS = [
+    dict(path=IUPAC, name=n, params=[('sequence', TEXT), ('material', STR)], locals={}, globals=IUPAC_TABLES, exc=IUPAC_EXC, ret=TEXT)
+    for n in ('complement', 'wc_complement', 'reverse_complement', 'reverse_wc_complement')
+] + [
+    dict(path=IUPAC, name='add_constraints', params=[('seq1', TEXT), ('seq2', TEXT), ('material', STR)], locals={'con': TEXT},
+         globals=IUPAC_TABLES, exc=IUPAC_EXC, ret=TEXT),
+]
+
+
+def imported_from(tree, name, module):
+    """`name` is bound exactly once at module level, by `from <module> import … name …`"""
+    binders = []
+    for n in tree.body:
+        if isinstance(n, ast.ImportFrom):
+            binders += [(n.module, a.name) for a in n.names if (a.asname or a.name) == name]
+        elif isinstance(n, ast.Import):
+            binders += [(None, a.name) for a in n.names if (a.asname or a.name.split('.')[0]) == name]
+        elif isinstance(n, (ast.FunctionDef, ast.ClassDef)) and n.name == name:
+            binders.append((None, 'def'))
+        elif isinstance(n, (ast.Assign, ast.AugAssign, ast.AnnAssign, ast.For, ast.With)):
+            binders += [(None, 'assign') for m in ast.walk(n) if isinstance(m, ast.Name) and isinstance(m.ctx, ast.Store) and m.id == name]
+    return binders == [(module, name)]
 
 
 def imports_chain(tree):
     """`chain` is bound exactly once at module level, by `from itertools import … chain …`"""
-    binders = []
-    for n in tree.body:
-        if isinstance(n, ast.ImportFrom):
-            binders += [(n.module, a.name) for a in n.names if (a.asname or a.name) == 'chain']
-        elif isinstance(n, ast.Import):
-            binders += [(None, a.name) for a in n.names if (a.asname or a.name.split('.')[0]) == 'chain']
-        elif isinstance(n, (ast.FunctionDef, ast.ClassDef)) and n.name == 'chain':
-            binders.append((None, 'def'))
-        elif isinstance(n, (ast.Assign, ast.AugAssign, ast.AnnAssign, ast.For, ast.With)):
-            binders += [(None, 'assign') for m in ast.walk(n) if isinstance(m, ast.Name) and isinstance(m.ctx, ast.Store) and m.id == 'chain']
-    return binders == [('itertools', 'chain')]
+    return imported_from(tree, 'chain', 'itertools')
+
+
+def builtins_unshadowed(tree, names):
+    """none of the built-in names the translation rules give a meaning to is bound at module level"""
+    for n in ast.walk(tree):
+        bound = None
+        if isinstance(n, ast.Name) and isinstance(n.ctx, (ast.Store, ast.Del)):
+            bound = n.id
+        elif isinstance(n, (ast.FunctionDef, ast.ClassDef)):
+            bound = n.name
+        elif isinstance(n, ast.alias):
+            bound = (n.asname or n.name).split('.')[0]
+        elif isinstance(n, ast.arg):
+            bound = n.arg
+        if bound in names:
+            raise Shape('the built-in name %s is bound in the module' % bound)
+
+
+def check_constant_table(tree, name):
+    """the module-level name `name` is bound exactly once, by a plain assignment of a dict display with pairwise different
+    constant keys or of a list display of constants, and every other occurrence reads an item of it (`name[…]`)"""
+    stores = [n for n in ast.walk(tree) if isinstance(n, ast.Name) and n.id == name and isinstance(n.ctx, (ast.Store, ast.Del))]
+    asg = [n for n in tree.body if isinstance(n, ast.Assign) and len(n.targets) == 1 and isinstance(n.targets[0], ast.Name)
+           and n.targets[0].id == name]
+    if len(stores) != 1 or len(asg) != 1:
+        raise Shape('the table %s is not bound exactly once at module level' % name)
+    v = asg[0].value
+    if isinstance(v, ast.Dict):
+        if not all(isinstance(k, ast.Constant) for k in v.keys) or len({k.value for k in v.keys}) != len(v.keys):
+            raise Shape('the table %s has repeated or non-constant keys' % name)
+    elif not (isinstance(v, ast.List) and all(isinstance(e, ast.Constant) for e in v.elts)):
+        raise Shape('the table %s is not a display of constants' % name)
+    reads = {id(n.value) for n in ast.walk(tree) if isinstance(n, ast.Subscript) and isinstance(n.ctx, ast.Load)
+             and isinstance(n.value, ast.Name) and n.value.id == name}
+    for n in ast.walk(tree):
+        if isinstance(n, ast.Name) and n.id == name and isinstance(n.ctx, ast.Load) and id(n) not in reads:
+            raise Shape('the table %s is used other than by reading an item' % name)
+        if isinstance(n, (ast.Global, ast.Nonlocal)) and name in n.names:
+            raise Shape('the table %s is declared global' % name)
+        if isinstance(n, (ast.arg,)) and n.arg == name or isinstance(n, (ast.FunctionDef, ast.ClassDef)) and n.name == name:
+            raise Shape('the table name %s is bound again' % name)
 
 
 def find_function(tree, name):
@@ -1165,38 +1610,65 @@ def find_function(tree, name):
     return c[0]
 
 
-def gen_pyfuncs(repo):
-    out = ['/- GENERATED by translator/pyfunc.py from the Python source — do not edit. -/',
-           'import DsdVerif.Model.PyPrelude', '', 'set_option linter.unusedVariables false', '', 'namespace Dsd.Gen', 'open Dsd', '']
+def translate(repo, funcs, out):
+    """translate the functions of the typing stubs `funcs` in order, appending the Lean text to `out`"""
     summary = {}
     trees = {}
     done = {}
-    for spec in FUNCS:
+    for spec in funcs:
         if spec['path'] not in trees:
             trees[spec['path']] = ast.parse(open(os.path.join(repo, spec['path'])).read())
         tree = trees[spec['path']]
         fn = find_function(tree, spec['name'])
+        key = spec.get('inst', spec['name'])
         want = [p for p, _ in spec['params']]
         # parameters the stub does not list must be unused by the body (e.g. `turns` of rotate_complex_once)
         check_signature(fn, spec)
         callees = {}
         for c in spec.get('callees', ()):
-            if c not in done:
-                raise Shape('%s: the callee %s is not translated before it' % (spec['name'], c))
-            find_function(tree, c)                              # … and is the module-level function of that name
-            callees[c] = done[c]
-        spec = dict(spec, chain_is_itertools=imports_chain(tree))
-        definite_assignment(fn, want + list(callees) + ([spec['name']] if spec.get('recursive') else []), spec['name'])
+            cname, ckey = (c, c) if isinstance(c, str) else c    # (Python name, typed instance)
+            if ckey not in done or done[ckey]['name'] != cname:
+                raise Shape('%s: the callee %s is not translated before it' % (spec['name'], ckey))
+            find_function(tree, cname)                          # … and is the module-level function of that name
+            callees[cname] = done[ckey]
+        for g in spec.get('globals', ()):
+            check_constant_table(tree, g)
+        if 'inst' in spec or spec.get('globals') or spec.get('fuel'):
+            builtins_unshadowed(tree, {'isinstance', 'list', 'zip', 'all', 'len', 'reversed', 'set'})
+        for exc in spec.get('exc', {}):
+            if not any(isinstance(n, ast.ClassDef) and n.name == exc for n in tree.body):
+                raise Shape('%s: the exception class %s is not defined in the module' % (spec['name'], exc))
+        spec = dict(spec, chain_is_itertools=imports_chain(tree), groupby_is_itertools=imported_from(tree, 'groupby', 'itertools'),
+                    reduce_is_functools=imported_from(tree, 'reduce', 'functools'), _fn=fn)
+        definite_assignment(fn, want + list(callees) + list(spec.get('globals', ())) + ([spec['name']] if spec.get('recursive') else []),
+                            spec['name'])
         tx = FuncTx(spec, fn, specs=callees)
         out.append(tx.run())
-        done[spec['name']] = spec
-        summary[spec['name']] = {'statements': sum(1 for _ in ast.walk(fn) if isinstance(_, ast.stmt)) - 1,
-                                 'loops': tx.nloops, 'source_lines': (fn.end_lineno - fn.lineno + 1)}
+        done[key] = spec
+        summary[key] = {'statements': sum(1 for _ in ast.walk(fn) if isinstance(_, ast.stmt)) - 1,
+                        'loops': tx.nloops, 'source_lines': (fn.end_lineno - fn.lineno + 1)}
+    return summary
+
+
+def gen_pyfuncs(repo):
+    out = ['/- GENERATED by translator/pyfunc.py from the Python source — do not edit. -/',
+           'import DsdVerif.Model.PyPrelude', '', 'set_option linter.unusedVariables false', '', 'namespace Dsd.Gen', 'open Dsd', '']
+    summary = translate(repo, FUNCS, out)
+    out.append('end Dsd.Gen')
+    return '\n'.join(out) + '\n', summary
+
+
+def gen_pyiupac(repo):
+    """`Gen/PyIupac.lean`: the sequence-level functions of dsdobjects/iupac_utils.py over the regenerated tables"""
+    out = ['/- GENERATED by translator/pyfunc.py from the Python source — do not edit. -/',
+           'import DsdVerif.Model.PyPrelude', 'import DsdVerif.Gen.IupacTables', '', 'set_option linter.unusedVariables false', '',
+           'namespace Dsd.Gen', 'open Dsd', '']
+    summary = translate(repo, IUPAC_FUNCS, out)
     out.append('end Dsd.Gen')
     return '\n'.join(out) + '\n', summary
 
 
 if __name__ == '__main__':
-    text, summ = gen_pyfuncs(sys.argv[1])
+    text, summ = (gen_pyiupac if len(sys.argv) > 2 and sys.argv[2] == 'iupac' else gen_pyfuncs)(sys.argv[1])
     sys.stdout.write(text)
     sys.stderr.write(repr(summ) + '\n')
